@@ -45,6 +45,8 @@ VARIABLES
   \* @type: Int;
   need,       \* fixed octets the current per-type reader still has to read unconditionally
   \* @type: Int;
+  minl,       \* the minimum payload length its single length check compares with (need, or need + 1)
+  \* @type: Int;
   hdr,        \* data header octets after the flags (4 .. 12)
   \* @type: Bool;
   hasL,
@@ -59,21 +61,21 @@ VARIABLES
   \* @type: Int;
   reqrem
 
-vars == <<pc, rem, arem, prem, len, alen, need, hdr, hasL, hasO, osz, used, req, reqrem>>
+vars == <<pc, rem, arem, prem, len, alen, need, minl, hdr, hasL, hasO, osz, used, req, reqrem>>
 
 LOn(g) == g \notin LOff
 
-Pcs == {"flags", "c_hdr", "c_len", "c_carve", "a_hdr", "a_len", "a_skip", "a_bytes", "a_sub",
-        "a_min", "a_read", "a_tail", "d_min", "d_fields", "d_off", "d_skip", "d_ext", "d_pay", "done"}
+Pcs == {"flags", "post_flags", "c_hdr", "c_len", "c_carve", "a_hdr", "a_len", "a_skip", "a_bytes", "a_sub",
+        "a_min", "a_read", "d_min", "d_fields", "d_off", "d_skip", "d_ext", "d_pay", "done"}
 
-U16 == { x \in 0..65535 : x <= FieldMax \/ x = 65535 }
-AvpLens == { x \in 0..1023 : x <= FieldMax \/ x = 1023 }
+U16 == IF FieldMax >= 65535 THEN 0..65535 ELSE (0..FieldMax) \cup {65535}
+AvpLens == IF FieldMax >= 1023 THEN 0..1023 ELSE (0..FieldMax) \cup {1023}
 MinLens == 0..26            \* the largest minimum payload (Call Errors)
 Widths == {1, 2, 4, 8, 16}  \* fixed-width field sizes
 
 Init ==
   /\ pc = "flags" /\ rem \in 0..MaxRem
-  /\ arem = 0 /\ prem = 0 /\ len = 0 /\ alen = 0 /\ need = 0 /\ hdr = 4 /\ hasL = FALSE /\ hasO = FALSE
+  /\ arem = 0 /\ prem = 0 /\ len = 0 /\ alen = 0 /\ need = 0 /\ minl = 0 /\ hdr = 4 /\ hasL = FALSE /\ hasO = FALSE
   /\ osz = 0 /\ used = 0 /\ req = 0 /\ reqrem = 0
 
 Issue(n, r) == req' = n /\ reqrem' = r
@@ -84,126 +86,143 @@ Done == pc' = "done" /\ Quiet
 Flags ==
   /\ pc = "flags"
   /\ IF LOn("Flags2") /\ rem < 2
-       THEN Done /\ UNCHANGED <<rem, arem, prem, len, alen, need, hdr, hasL, hasO, osz, used>>
-       ELSE /\ Issue(2, rem) /\ rem' = rem - 2 /\ used' = 2
-            /\ pc' \in {"c_hdr", "d_min", "done"}          \* control / data / rejected by version, reserved, unused, L/S checks
-            /\ UNCHANGED <<arem, prem, len, alen, need, hdr, hasL, hasO, osz>>
+       THEN Done /\ UNCHANGED <<rem, arem, prem, len, alen, need, minl, hdr, hasL, hasO, osz, used>>
+       ELSE /\ Issue(2, rem) /\ rem' = rem - 2 /\ used' = 2 /\ pc' = "post_flags"
+            /\ UNCHANGED <<arem, prem, len, alen, need, minl, hdr, hasL, hasO, osz>>
+
+\* version / reserved / dispatch / unused-field / L,S-bit checks: no reader activity; they
+\* lead to the control header, the data header, or a rejection
+PostFlags ==
+  /\ pc = "post_flags" /\ Quiet /\ pc' \in {"post_flags", "c_hdr", "d_min", "done"}
+  /\ UNCHANGED <<rem, arem, prem, len, alen, need, minl, hdr, hasL, hasO, osz, used>>
+
+\* a step that touches no reader and stays where it is (bookkeeping of the real machine)
+Idle ==
+  /\ Quiet /\ UNCHANGED <<pc, rem, arem, prem, len, alen, need, minl, hdr, hasL, hasO, osz, used>>
 
 CtlHeader ==
   /\ pc = "c_hdr"
   /\ IF LOn("CtlHdr10") /\ rem < 10
-       THEN Done /\ UNCHANGED <<rem, arem, prem, len, alen, need, hdr, hasL, hasO, osz, used>>
+       THEN Done /\ UNCHANGED <<rem, arem, prem, len, alen, need, minl, hdr, hasL, hasO, osz, used>>
        ELSE /\ Issue(10, rem) /\ rem' = rem - 10 /\ len' \in U16 /\ pc' = "c_len"
-            /\ UNCHANGED <<arem, prem, alen, need, hdr, hasL, hasO, osz, used>>
+            /\ UNCHANGED <<arem, prem, alen, need, minl, hdr, hasL, hasO, osz, used>>
 
 CtlLength ==
   /\ pc = "c_len" /\ Quiet
   /\ IF (LOn("CtlLen12") /\ len < 12) \/ (LOn("CtlLenFit") /\ len > rem + 12)
        THEN pc' = "done" ELSE pc' = "c_carve"
-  /\ UNCHANGED <<rem, arem, prem, len, alen, need, hdr, hasL, hasO, osz, used>>
+  /\ UNCHANGED <<rem, arem, prem, len, alen, need, minl, hdr, hasL, hasO, osz, used>>
 
 CtlCarve ==
   /\ pc = "c_carve"
   /\ Issue(len - 12, rem) /\ arem' = len - 12 /\ rem' = rem - (len - 12) /\ pc' = "a_hdr"
-  /\ UNCHANGED <<prem, len, alen, need, hdr, hasL, hasO, osz, used>>
+  /\ UNCHANGED <<prem, len, alen, need, minl, hdr, hasL, hasO, osz, used>>
 
 AvpHeader ==
   /\ pc = "a_hdr"
   /\ IF arem < 6
-       THEN Done /\ UNCHANGED <<rem, arem, prem, len, alen, need, hdr, hasL, hasO, osz, used>>
+       THEN Done /\ UNCHANGED <<rem, arem, prem, len, alen, need, minl, hdr, hasL, hasO, osz, used>>
        ELSE /\ Issue(6, arem) /\ arem' = arem - 6 /\ alen' \in AvpLens /\ pc' = "a_len"
-            /\ UNCHANGED <<rem, prem, len, need, hdr, hasL, hasO, osz, used>>
+            /\ UNCHANGED <<rem, prem, len, need, minl, hdr, hasL, hasO, osz, used>>
 
 AvpLength ==
   /\ pc = "a_len" /\ Quiet
   /\ IF (LOn("AvpLen6") /\ alen < 6) \/ (LOn("AvpFit") /\ alen - 6 > arem)
        THEN pc' = "done" ELSE pc' \in {"a_skip", "a_bytes", "a_sub"}      \* vendor-specific / hidden / ordinary
-  /\ UNCHANGED <<rem, arem, prem, len, alen, need, hdr, hasL, hasO, osz, used>>
+  /\ UNCHANGED <<rem, arem, prem, len, alen, need, minl, hdr, hasL, hasO, osz, used>>
 
 AvpSkip ==
   /\ pc = "a_skip"
   /\ Issue(alen - 6, arem) /\ arem' = arem - (alen - 6) /\ pc' = "a_hdr"
-  /\ UNCHANGED <<rem, prem, len, alen, need, hdr, hasL, hasO, osz, used>>
+  /\ UNCHANGED <<rem, prem, len, alen, need, minl, hdr, hasL, hasO, osz, used>>
 
 AvpBytes ==        \* bytes() is a checked operation: no request is issued
   /\ pc = "a_bytes" /\ Quiet
   /\ arem' = arem - (alen - 6) /\ pc' = "a_hdr"
-  /\ UNCHANGED <<rem, prem, len, alen, need, hdr, hasL, hasO, osz, used>>
+  /\ UNCHANGED <<rem, prem, len, alen, need, minl, hdr, hasL, hasO, osz, used>>
 
 AvpSub ==
   /\ pc = "a_sub"
   /\ Issue(alen - 6, arem) /\ prem' = alen - 6 /\ arem' = arem - (alen - 6)
-  /\ need' \in MinLens /\ pc' \in {"a_min", "a_hdr"}                       \* known type / unknown type
+  /\ need' \in MinLens /\ minl' \in {need', need' + 1}                   \* + 1: a non-empty rest / text part
+  /\ pc' \in {"a_min", "a_hdr"}                                           \* known type / unknown type
   /\ UNCHANGED <<rem, len, alen, hdr, hasL, hasO, osz, used>>
 
 AvpMin ==
   /\ pc = "a_min" /\ Quiet
-  /\ IF LOn("AvpMin") /\ prem < need THEN pc' = "a_hdr" ELSE pc' = "a_read"
-  /\ UNCHANGED <<rem, arem, prem, len, alen, need, hdr, hasL, hasO, osz, used>>
+  /\ IF LOn("AvpMin") /\ prem < minl
+       THEN pc' = "a_hdr" /\ need' \in MinLens            \* (the count of fields to read is meaningless from here on)
+       ELSE pc' = "a_read" /\ UNCHANGED need
+  /\ UNCHANGED <<rem, arem, prem, len, alen, minl, hdr, hasL, hasO, osz, used>>
 
-AvpRead ==         \* one fixed-width field (or reserved skip) of the field program
+\* one operation of the field program
+AvpRead ==
   /\ pc = "a_read"
-  /\ IF need = 0
-       THEN /\ Quiet /\ pc' \in {"a_tail", "a_hdr"} /\ UNCHANGED <<prem, need>>
-       ELSE \E k \in MinLens :
-              /\ k >= 1 /\ k <= need
-              /\ Issue(k, prem) /\ prem' = prem - k /\ need' = need - k
-              /\ pc' \in {"a_read", "a_hdr"}                                \* next field / enum or UTF-8 error
-  /\ UNCHANGED <<rem, arem, len, alen, hdr, hasL, hasO, osz, used>>
-
-AvpTail ==         \* optional tail: Result Code's error type (two octets if at least two remain); text via bytes()
-  /\ pc = "a_tail"
-  /\ IF LOn("ErrTail2") /\ prem < 2
-       THEN Quiet /\ UNCHANGED <<prem>>
-       ELSE Issue(2, prem) /\ prem' = prem - 2
-  /\ pc' = "a_hdr"
-  /\ UNCHANGED <<rem, arem, len, alen, need, hdr, hasL, hasO, osz, used>>
+  /\ \/ \* a fixed-width field or reserved skip of k octets: read; an enumerated code may be rejected
+        \E k \in MinLens :
+          /\ k >= 1 /\ k <= need /\ Issue(k, prem)
+          /\ \/ prem' = prem - k /\ need' = need - k /\ pc' = "a_read"
+             \/ UNCHANGED <<prem, need>> /\ pc' = "a_hdr"
+     \/ \* all fixed fields read: the AVP is complete
+        /\ need = 0 /\ Quiet /\ pc' = "a_hdr" /\ UNCHANGED <<prem, need>>
+     \/ \* ... or a rest / text tail taken with the CHECKED bytes(): all that remains, or an error
+        /\ need = 0 /\ Quiet /\ UNCHANGED need
+        /\ \/ prem' = 0 /\ pc' = "a_read"
+           \/ UNCHANGED prem /\ pc' = "a_hdr"
+     \/ \* ... or Result Code's optional error part: absent when fewer than two octets remain
+        /\ need = 0 /\ LOn("ErrTail2") /\ prem < 2 /\ Quiet /\ pc' = "a_read" /\ UNCHANGED <<prem, need>>
+     \/ \* ... else its two-octet error type is read (then text by bytes(), or an error)
+        /\ need = 0 /\ (LOn("ErrTail2") => prem >= 2) /\ Issue(2, prem) /\ UNCHANGED need
+        /\ \/ prem' \in {prem - 2, 0} /\ pc' = "a_read"
+           \/ UNCHANGED prem /\ pc' = "a_hdr"
+  /\ UNCHANGED <<rem, arem, len, alen, minl, hdr, hasL, hasO, osz, used>>
 
 DataMin ==
   /\ pc = "d_min" /\ Quiet
   /\ \E l, s, o \in BOOLEAN :
-       /\ hasL' = l /\ hasO' = o
-       /\ hdr' = 4 + (IF l THEN 2 ELSE 0) + (IF s THEN 4 ELSE 0) + (IF o THEN 2 ELSE 0)
-       /\ IF LOn("DataMin") /\ rem < hdr' THEN pc' = "done" ELSE pc' = "d_fields"
-  /\ UNCHANGED <<rem, arem, prem, len, alen, need, osz, used>>
+       LET h == 4 + (IF l THEN 2 ELSE 0) + (IF s THEN 4 ELSE 0) + (IF o THEN 2 ELSE 0) IN
+       IF LOn("DataMin") /\ rem < h
+         THEN pc' = "done" /\ UNCHANGED <<hdr, hasL, hasO>>
+         ELSE pc' = "d_fields" /\ hdr' = h /\ hasL' = l /\ hasO' = o
+  /\ UNCHANGED <<rem, arem, prem, len, alen, need, minl, osz, used>>
 
 DataFields ==
   /\ pc = "d_fields"
   /\ LET n == hdr - (IF hasO THEN 2 ELSE 0) IN
        /\ Issue(n, rem) /\ rem' = rem - n /\ used' = used + n
   /\ len' \in U16 /\ pc' = "d_off"
-  /\ UNCHANGED <<arem, prem, alen, need, hdr, hasL, hasO, osz>>
+  /\ UNCHANGED <<arem, prem, alen, need, minl, hdr, hasL, hasO, osz>>
 
 DataOffset ==
   /\ pc = "d_off"
   /\ IF hasO
        THEN Issue(2, rem) /\ rem' = rem - 2 /\ used' = used + 2 /\ osz' \in U16 /\ pc' = "d_skip"
        ELSE Quiet /\ pc' = "d_ext" /\ UNCHANGED <<rem, used, osz>>
-  /\ UNCHANGED <<arem, prem, len, alen, need, hdr, hasL, hasO>>
+  /\ UNCHANGED <<arem, prem, len, alen, need, minl, hdr, hasL, hasO>>
 
 DataSkip ==
   /\ pc = "d_skip"
   /\ IF LOn("DataOffsetFit") /\ osz > rem
        THEN Done /\ UNCHANGED <<rem, used>>
        ELSE Issue(osz, rem) /\ rem' = rem - osz /\ used' = used + osz /\ pc' = "d_ext"
-  /\ UNCHANGED <<arem, prem, len, alen, need, hdr, hasL, hasO, osz>>
+  /\ UNCHANGED <<arem, prem, len, alen, need, minl, hdr, hasL, hasO, osz>>
 
-DataExtent ==      \* payload extent = Length - octets consumed so far; checked bytes() takes it
+DataExtent ==      \* payload extent = Length - octets consumed so far; an empty payload is rejected too
   /\ pc = "d_ext" /\ Quiet
   /\ IF hasL /\ ((LOn("DataLenMin") /\ len < used) \/ (LOn("DataLenFit") /\ len - used > rem))
-       THEN pc' = "done" ELSE pc' = "d_pay"
-  /\ UNCHANGED <<rem, arem, prem, len, alen, need, hdr, hasL, hasO, osz, used>>
+       THEN pc' = "done" ELSE pc' \in {"d_pay", "done"}
+  /\ UNCHANGED <<rem, arem, prem, len, alen, need, minl, hdr, hasL, hasO, osz, used>>
 
-DataPayload ==     \* the subtraction len - used must not underflow: modelled as a request of that size
-  /\ pc = "d_pay"
-  /\ IF hasL THEN Issue(len - used, rem) /\ rem' = rem - (len - used)
-             ELSE Quiet /\ rem' = 0
+DataPayload ==     \* the payload is taken with the checked bytes(); len - used must not underflow (Safe)
+  /\ pc = "d_pay" /\ Quiet
+  /\ IF hasL THEN rem' = rem - (len - used) /\ used' = len
+             ELSE rem' = 0 /\ used' = used + rem
   /\ pc' = "done"
-  /\ UNCHANGED <<arem, prem, len, alen, need, hdr, hasL, hasO, osz, used>>
+  /\ UNCHANGED <<arem, prem, len, alen, need, minl, hdr, hasL, hasO, osz>>
 
 Next ==
-  \/ Flags \/ CtlHeader \/ CtlLength \/ CtlCarve
-  \/ AvpHeader \/ AvpLength \/ AvpSkip \/ AvpBytes \/ AvpSub \/ AvpMin \/ AvpRead \/ AvpTail
+  \/ Flags \/ PostFlags \/ Idle \/ CtlHeader \/ CtlLength \/ CtlCarve
+  \/ AvpHeader \/ AvpLength \/ AvpSkip \/ AvpBytes \/ AvpSub \/ AvpMin \/ AvpRead
   \/ DataMin \/ DataFields \/ DataOffset \/ DataSkip \/ DataExtent \/ DataPayload
 
 Spec == Init /\ [][Next]_vars
@@ -213,11 +232,12 @@ Spec == Init /\ [][Next]_vars
 Safe ==
   /\ req >= 0 /\ req <= reqrem
   /\ rem >= 0 /\ arem >= 0 /\ prem >= 0
+  /\ (pc = "d_pay" /\ hasL => len >= used)          \* the subtraction Length - consumed does not underflow
 
 TypeOK ==
   /\ pc \in Pcs
   /\ rem \in Int /\ arem \in Int /\ prem \in Int /\ len \in U16 /\ alen \in AvpLens
-  /\ need \in MinLens /\ hdr \in 4..12 /\ hasL \in BOOLEAN /\ hasO \in BOOLEAN
+  /\ need \in MinLens /\ minl \in 0..27 /\ hdr \in 4..12 /\ hasL \in BOOLEAN /\ hasO \in BOOLEAN
   /\ osz \in U16 /\ used \in Int /\ req \in Int /\ reqrem \in Int
 
 \* the inductive invariant: Safe plus what each program counter has already established
@@ -226,6 +246,7 @@ IndInv ==
   /\ used >= 0
   /\ (pc = "c_carve" => len >= 12 /\ len - 12 <= rem)
   /\ (pc \in {"a_skip", "a_bytes", "a_sub"} => alen >= 6 /\ alen - 6 <= arem)
+  /\ (pc = "a_min" => need <= minl)
   /\ (pc = "a_read" => need <= prem)
   /\ (pc = "d_fields" => hdr <= rem)
   /\ (pc = "d_off" /\ hasO => rem >= 2)
